@@ -156,7 +156,7 @@ class Check:
     def outcome(self, cls, key):
         """record a distinct observed outcome (non-vacuity evidence)"""
         s = self.outcomes.setdefault(cls, set())
-        if len(s) < 200000:
+        if len(s) < 2000000:
             s.add(key)
 
     def nontriv(self, key):
